@@ -72,7 +72,8 @@ def directory_case(draw):
         if k not in seq:
             seq.append(k)
     distractors = draw(st.lists(st.sampled_from(["foreign", "absent", "solvent", "system-file", "copy-gro",
-                                                 "copy-itp", "missing-coords"]), min_size=0, max_size=5, unique=True))
+                                                 "copy-itp", "missing-coords", "same-basename-gro", "same-basename-itp"]),
+                                min_size=0, max_size=5, unique=True))
     return {"species": species, "sequence": seq, "distractors": distractors,
             "solvent_in_system": draw(st.booleans()),
             "dup_of": draw(st.integers(0, nsp - 1)), "missing_of": draw(st.integers(0, nsp - 1)),
@@ -165,9 +166,24 @@ def build_directory(case):
             write_itp(p, case["species"][case["dup_of"]]["end"])
             listing.append(p)
             candidates[nm]["top_AA"].append(p)
+        elif dname in ("same-basename-gro", "same-basename-itp"):
+            # a second valid candidate with the SAME file name in another folder
+            nm = "SP%d" % case["dup_of"]
+            sub = os.path.join(inputs, "other_conf")
+            os.makedirs(sub, exist_ok=True)
+            if dname.endswith("gro"):
+                p = os.path.join(sub, "%s_AA.gro" % nm)
+                indep.write_gro(p, "other folder", spec_records(case["species"][case["dup_of"]]["end"]), [7.0, 7.0, 7.0])
+                candidates[nm]["coor_AA"].append(p)
+            else:
+                p = os.path.join(sub, "%s_AA.itp" % nm)
+                write_itp(p, case["species"][case["dup_of"]]["end"])
+                candidates[nm]["top_AA"].append(p)
+            listing.append(p)
         elif dname == "missing-coords":
             nm = "SP%d" % case["missing_of"]
-            if "copy-gro" in case["distractors"] and case["dup_of"] == case["missing_of"]:
+            if ("copy-gro" in case["distractors"] or "same-basename-gro" in case["distractors"]) \
+                    and case["dup_of"] == case["missing_of"]:
                 continue
             listing.remove(triples[nm][1])
             incomplete.add(nm)
